@@ -165,6 +165,9 @@ TraceEntry ==
         /\ ev.rc # "panic"
    /\ UNCHANGED <<w, res>>
 
+\* verdict of an external parser (CPython zipfile, Info-ZIP unzip) on the bytes just judged
+TraceReferee == /\ IsEvent("Referee") /\ (w.fin => ev.verdict \in {"ok", "skip"}) /\ UNCHANGED <<w, res>>
+TraceDumped  == IsEvent("Dumped") /\ UNCHANGED <<w, res>>
 \* finish() and drop produced identical bytes for the same program (C01)
 TraceCompare == IsEvent("Compare") /\ ev.eq /\ UNCHANGED <<w, res>>
 
@@ -192,7 +195,7 @@ TraceNext ==
    \/ TraceReset \/ TraceNew \/ TraceSetComment \/ TraceStartFile \/ TraceStartFileExtra
    \/ TraceStartFileAligned \/ TraceWrite \/ TraceEndExtra
    \/ TraceEndLocalStartCentral \/ TraceAddDir \/ TraceAddSymlink \/ TraceRawCopy \/ TraceFlush
-   \/ TraceFinish \/ TraceDrop \/ TraceLayout \/ TraceOpen \/ TraceEntry \/ TraceEntryUnfinished \/ TraceCompare
+   \/ TraceFinish \/ TraceDrop \/ TraceLayout \/ TraceOpen \/ TraceEntry \/ TraceEntryUnfinished \/ TraceCompare \/ TraceReferee \/ TraceDumped
 TraceSpec == TraceInit /\ [][TraceNext]_tvars
 TraceSpecDiag == TraceInit /\ [][TraceNext \/ TraceDiag]_tvars
 
